@@ -200,6 +200,13 @@ static void IoReader(const Json& cmd, JsonOut& o) {
         RunReaderOps<decltype(b), false, false>(b, nullptr, ops, o);
       } else RunReaderOps<nop::FdReader, false, false>(r, nullptr, ops, o);
     }
+  } else if (kind == "fdbad") {
+    // FdReader on a descriptor that cannot be read (write-only): read() fails with EBADF -> IOError
+    nop::FdReader r(::open("/dev/null", O_WRONLY));
+    if (bounded) {
+      nop::BoundedReader<nop::FdReader> b(&r, static_cast<size_t>(limit));
+      RunReaderOps<decltype(b), false, false>(b, nullptr, ops, o);
+    } else RunReaderOps<nop::FdReader, false, false>(r, nullptr, ops, o);
   } else if (kind == "fd") {
     nop::FdReader r(MakeReadFd(heap.get(), src.size()));
     if (bounded) {
@@ -286,11 +293,11 @@ struct LimBuf : std::streambuf {
   }
 };
 struct LimStream : std::ostream {
-  static size_t cap_for_next;
+  static thread_local size_t cap_for_next;
   LimBuf buf;
   LimStream() : std::ostream(nullptr) { buf.cap = cap_for_next; rdbuf(&buf); }
 };
-size_t LimStream::cap_for_next = 0;
+thread_local size_t LimStream::cap_for_next = 0;
 
 static void IoWriter(const Json& cmd, JsonOut& o) {
   const std::string kind = cmd.at("kind").s;
@@ -392,6 +399,9 @@ static void CmdIo(const Json& cmd, JsonOut& o) {
   if (cmd.at("side").s == "w") IoWriter(cmd, o);
   else IoReader(cmd, o);
 }
+// Entry point for the thread commands (C19): the same call sequences on objects owned by the calling thread
+// (memory-backed kinds only: the descriptor kinds use process-wide temporary files).
+void RunIoCommand(const Json& cmd, JsonOut& o) { CmdIo(cmd, o); }
 
 static CommandRegistrar r_io("io", CmdIo);
 
